@@ -104,8 +104,30 @@ func evalArg(root map[string]any, at, arg any) (val any) {
 				val = ta.First(root)
 			}
 		}
+	case map[string]any, []any:
+		// A literal of the plan. Hand out a copy so that a function that
+		// modifies its argument does not modify the plan.
+		val = dupLiteral(ta)
 	default:
 		val = arg
 	}
 	return val
+}
+
+func dupLiteral(v any) any {
+	switch tv := v.(type) {
+	case map[string]any:
+		m := make(map[string]any, len(tv))
+		for k, mv := range tv {
+			m[k] = dupLiteral(mv)
+		}
+		return m
+	case []any:
+		a := make([]any, len(tv))
+		for i, av := range tv {
+			a[i] = dupLiteral(av)
+		}
+		return a
+	}
+	return v
 }
